@@ -106,6 +106,36 @@ def observe(itp):
     return {'header': header, 'names': names, 'items': items}
 
 
+def big_file_events(workdir):
+    """a topology of ~1.7 MB written by the harness: [ moleculetype ], [ atoms ], 33000 [ dihedrals ] lines, a closing
+    [ position_restraints ] block; counted after reading, and after writing back and reading again"""
+    from gaddlemaps.parsers import ItpFile
+    p1 = os.path.join(workdir, 'big.itp')
+    nd = 33000
+    with open(p1, 'w') as fh:
+        fh.write('[ moleculetype ]\nPOLY 3\n\n[ atoms ]\n')
+        for i in range(1, 5):
+            fh.write('%6d C %5d POL C%d %5d 0.0 12.011\n' % (i, 1, i, i))
+        fh.write('\n[ dihedrals ]\n')
+        for i in range(nd):
+            fh.write('%6d %6d %6d %6d     9     0.0    10.0     3 ; term %d\n' % (1, 2, 3, 4, i))
+        fh.write('\n[ position_restraints ]\n     1     1  1000  1000  1000 ; the last line\n')
+    want = {'moleculetype': 1, 'atoms': 4, 'dihedrals': nd, 'position_restraints': 1}
+
+    def counts(f):
+        return {name: sum(1 for ln in f[name].lines if ln.content) for name in f if name != 'header'}
+    f1 = ItpFile(p1)
+    c1 = counts(f1)
+    p2 = os.path.join(workdir, 'big_w.itp')
+    f1.write(p2)
+    f2 = ItpFile(p2)
+    c2 = counts(f2)
+    last_ok = bool('position_restraints' in f2 and any('1000' in ln.content for ln in f2['position_restraints'].lines))
+    return [{'op': 'big', 'nlines': sum(want.values()), 'read': sum(c1.values()), 'rewritten': sum(c2.values()),
+             'names_ok': bool([n for n in f1 if n != 'header'] == list(want) and [n for n in f2 if n != 'header'] == list(want)),
+             'last_line_ok': last_ok}]
+
+
 def file_events(path, workdir, with_topo):
     from gaddlemaps.parsers import ItpFile, read_topology
     from gaddlemaps.components import MoleculeTop, are_connected
@@ -393,6 +423,9 @@ def _work(args):
                         out.write(render(payload, rng, final_newline=rng.random() < 0.7))
                     with common.caller_state(tid):
                         ev = common.guarded(file_events, 180, path, workdir, False)
+                elif kind == 'big':
+                    cfg = {'kind': 'big', 'file': [], 'n': 0, 'bonds': []}
+                    ev = common.guarded(big_file_events, 600, workdir)
                 elif kind == 'generic':
                     rng = random.Random(payload)
                     cfg['file'] = random_generic_file(rng)
@@ -496,6 +529,8 @@ def check(run, props):
         for j in range(150 if run.quick else 3000):
             tid += 1
             items.append((tid, 'generic', run.seed * 1000003 + j))
+        tid += 1
+        items.append((tid, 'big', 0))
     ntopo = (300 if run.quick else 3000)
     for j in range(ntopo):
         tid += 1
